@@ -12,8 +12,25 @@ import (
 	"github.com/protolambda/ztyp/view"
 )
 
-// typeDef builds the library's TypeDef for a Ty the way a downstream user would.
+// typeDef builds the library's TypeDef for a Ty the way a downstream user would: a type is
+// defined once and the same TypeDef object is used wherever that type occurs (e.g. two fields
+// of the same list type share one *ComplexListTypeDef).
+var typeDefCache = map[string]view.TypeDef{}
+
 func typeDef(t *Ty) view.TypeDef {
+	key := t.String()
+	if td, ok := typeDefCache[key]; ok {
+		return td
+	}
+	td := typeDefBuild(t)
+	if len(typeDefCache) > 50000 {
+		typeDefCache = map[string]view.TypeDef{}
+	}
+	typeDefCache[key] = td
+	return td
+}
+
+func typeDefBuild(t *Ty) view.TypeDef {
 	switch t.Kind {
 	case KUint:
 		return view.UintMeta(t.N)
